@@ -45,6 +45,24 @@ func init() {
 	for _, n := range []string{"(*sync.Mutex).Lock", "(*sync.Mutex).Unlock", "(*sync.RWMutex).Lock", "(*sync.RWMutex).Unlock", "(*sync.RWMutex).RLock", "(*sync.RWMutex).RUnlock"} {
 		modelWrites[n] = "sync|$"
 	}
+	// sync.Map / WaitGroup: results are unknown (other goroutines interfere); ghost counters per
+	// map address record which operations a function performed, so that a contract can require a
+	// single atomic LoadOrStore instead of a separable Load + Store.
+	ctrOp := func(kind string) modelFn {
+		return func(e *Engine, st *State, fr *Frame, callee *ssa.Function, args []Val, at ssa.Instruction) []Val {
+			name := "ghost|" + kind
+			p := args[0][0]
+			st.heap.arr[name] = Store(st.heap.get(name, ArrSort(SInt)), p, Add(Select(st.heap.get(name, ArrSort(SInt)), p), IntC(1)))
+			return nop2(e, st, fr, callee, args, at)
+		}
+	}
+	for _, k := range []string{"LoadOrStore", "Load", "Store", "Delete", "LoadAndDelete", "Swap", "CompareAndSwap"} {
+		modelTable["(*sync.Map)."+k] = ctrOp("sync.Map." + k)
+		modelWrites["(*sync.Map)."+k] = "ghost|"
+	}
+	for _, k := range []string{"Add", "Done", "Wait"} {
+		modelTable["(*sync.WaitGroup)."+k] = nop
+	}
 	modelTable["errors.New"] = freshError
 	modelTable["fmt.Errorf"] = freshError
 	modelTable["fmt.Sprintf"] = sprintfModel
